@@ -349,3 +349,15 @@ Definition commit_step (a : allocst) (t : txst) (extra : bool) : commit_outcome 
   | COutOfMemory a2 t2 => CoOOM a2 t2
   | COk c a2 t2 => CoOk (commit_apply a2 c)
   end.
+
+(* a commit that fails after its allocation step (an I/O error while the free-list pages, the header or the data
+   pages are written): tx.go rolls the transaction back; nothing of fileCommitPrepare / fileCommitAlloc may be left
+   in the allocator *)
+Definition commit_fail_step (a : allocst) (t : txst) (extra : bool) : commit_outcome :=
+  let upd := tx_updated t in
+  let t1 := if upd then meta_free_regions t (flPages a) else t in
+  match commit_alloc a t1 (upd || extra) with
+  | CPanic => CoPanic
+  | COutOfMemory a2 t2 => CoOOM a2 t2
+  | COk c a2 t2 => CoOk (rollback a2 t2)
+  end.
